@@ -638,6 +638,8 @@ def evaluate__range_expression(self: XPathToken, context: ta.ContextType = None)
         return xlist(range(start, stop + 1))
     except TypeError:
         return []
+    except (MemoryError, OverflowError):
+        raise self.error('FOAR0002', 'the range is too large') from None
 
 
 @method('to')
